@@ -242,3 +242,8 @@ Proof.
   - right. right. apply Hall. exact Hx.
   - apply IH; assumption.
 Qed.
+
+Print Assumptions ip_vd_writes_ok.
+Print Assumptions ip_lrec_step.
+Print Assumptions ip_lrec_changed_allowed.
+Print Assumptions ip_compat_writes.
